@@ -351,6 +351,157 @@ func c08Class(fam string, s c08Scn, o c08Obs) string {
 	return fam + "/" + strings.Join(ts, "+")
 }
 
+// ---------------------------------------------------------------- exhaustive small scopes
+
+func c08ExhWorlds() []c08Scn {
+	cf, xf := claim.VerifC08Finalizer, composite.VerifC08Finalizer
+	run := c08CtrlNames()
+	mk := func(kind, name string, fins []string, del bool) c08Obj {
+		return c08Obj{Kind: kind, Name: name, Fins: fins, Del: del, Owners: []c08Owner{}, Pkgs: []string{}}
+	}
+	with := func(o c08Obj, f func(*c08Obj)) c08Obj { f(&o); return o }
+	xrd := with(mk("xrd", c08XRDName, []string{definition.VerifC08Finalizer, offered.VerifC08Finalizer}, true), func(o *c08Obj) { o.Ref, o.Of = c08XRCRD, c08ClaimCRD })
+	ours := []c08Owner{{Idx: 0, Ctrl: true, Block: true}}
+	crdX := with(mk("crd", c08XRCRD, []string{}, false), func(o *c08Obj) { o.Owners = ours })
+	crdC := with(mk("crd", c08ClaimCRD, []string{}, false), func(o *c08Obj) { o.Owners = ours })
+	return []c08Scn{
+		// 0: background claim and its XR
+		{Running: run, Objs: []c08Obj{
+			with(mk("claim", "ns/c1", []string{cf}, true), func(o *c08Obj) { o.Ref = "x1" }),
+			with(mk("xr", "x1", []string{xf}, false), func(o *c08Obj) { o.Ref = "ns/c1" })}},
+		// 1: foreground claim, XR with a composed child that blocks owner deletion
+		{Running: run, Objs: []c08Obj{
+			with(mk("claim", "ns/c1", []string{cf}, true), func(o *c08Obj) { o.Ref, o.Flag = "x1", true }),
+			with(mk("xr", "x1", []string{xf}, false), func(o *c08Obj) { o.Ref = "ns/c1" }),
+			with(mk("res", "x1-r0", []string{}, false), func(o *c08Obj) { o.Owners = []c08Owner{{Idx: 1, Ctrl: true, Block: true}} })}},
+		// 2: foreground claim whose XR is already being deleted and carries a third-party finalizer
+		{Running: run, Objs: []c08Obj{
+			with(mk("claim", "ns/c1", []string{cf, c08Hold}, true), func(o *c08Obj) { o.Ref, o.Flag = "x1", true }),
+			with(mk("xr", "x1", []string{xf, c08Hold}, true), func(o *c08Obj) { o.Ref = "ns/c1" })}},
+		// 3: two claims (background, foreground) and their XRs
+		{Running: run, Objs: []c08Obj{
+			with(mk("claim", "ns/c1", []string{cf}, true), func(o *c08Obj) { o.Ref = "x1" }),
+			with(mk("xr", "x1", []string{xf}, false), func(o *c08Obj) { o.Ref = "ns/c1" }),
+			with(mk("claim", "ns/c2", []string{cf}, false), func(o *c08Obj) { o.Ref, o.Flag = "x2", true }),
+			with(mk("xr", "x2", []string{xf}, true), func(o *c08Obj) { o.Ref = "ns/c2" })}},
+		// 4: XRD teardown, composite side: one XR instance
+		{Running: run, Objs: []c08Obj{xrd, crdX, mk("xr", "x1", []string{xf}, false)}},
+		// 5: XRD teardown, claim side: one claim bound to one XR
+		{Running: run, Objs: []c08Obj{xrd, crdX, crdC,
+			with(mk("claim", "ns/c1", []string{cf}, false), func(o *c08Obj) { o.Ref = "x1" }),
+			with(mk("xr", "x1", []string{xf}, false), func(o *c08Obj) { o.Ref = "ns/c1" })}},
+		// 6: XRD teardown with no instance left and with a CRD that is not ours
+		{Running: run, Objs: []c08Obj{xrd, crdX, with(mk("crd", c08ClaimCRD, []string{}, false), func(o *c08Obj) { o.Owners = []c08Owner{{Idx: -1, Ctrl: true}} })}},
+		// 7: two package revisions and the Lock; a composed Usage with its using and used resources
+		{Running: []string{}, Objs: []c08Obj{
+			mk("rev", "p1", []string{revision.VerifC08Finalizer}, true),
+			with(mk("lock", revision.VerifC08LockName, []string{}, false), func(o *c08Obj) { o.Pkgs = []string{"p1", "p2"} }),
+			with(mk("usage", "u1", []string{usagectrl.VerifC08Finalizer}, true), func(o *c08Obj) { o.Ref, o.Of, o.Flag = "using1", "used1", true }),
+			mk("res", "using1", []string{}, false),
+			with(mk("res", "used1", []string{}, false), func(o *c08Obj) { o.Inuse = true })}},
+	}
+}
+
+// c08Enabled lists the schedule steps the exhaustive enumeration branches on in the
+// current state of the world.
+func c08Enabled(w *c08World, spawned []c08Live, outcomes []string) []c08Step {
+	s := w.snap()
+	busy := map[c08Live]bool{}
+	var out []c08Step
+	nlive := 0
+	for id, t := range w.threads {
+		if !t.fin {
+			nlive++
+			busy[spawned[id]] = true
+			for _, o := range outcomes {
+				out = append(out, c08Step{Op: "step", T: id, O: o})
+			}
+		}
+	}
+	keys := make([]string, 0, len(s.objs))
+	for k := range s.objs {
+		keys = append(keys, k)
+	}
+	sort.Strings(keys)
+	gc := false
+	for _, k := range keys {
+		v := s.objs[k]
+		if v.Del {
+			if nlive < 2 {
+				for _, c := range c08Ctls[v.Kind] {
+					if !busy[c08Live{c, v.Name}] {
+						out = append(out, c08Step{Op: "spawn", C: c, Name: v.Name})
+					}
+				}
+			}
+		} else if v.Kind != "crd" && v.Kind != "lock" && v.Kind != "xrd" {
+			out = append(out, c08Step{Op: "del", Kind: v.Kind, Name: v.Name})
+		}
+		if v.hasFin(c08Hold) {
+			out = append(out, c08Step{Op: "unfin", Kind: v.Kind, Name: v.Name, Fin: c08Hold})
+		}
+		if v.hasFin(c08FgFin) {
+			gc = true
+		}
+	}
+	for _, u := range w.st.All() {
+		for _, r := range u.GetOwnerReferences() {
+			alive := false
+			for _, v := range s.objs {
+				if v.UID == string(r.UID) {
+					alive = true
+				}
+			}
+			if !alive {
+				gc = true
+			}
+		}
+	}
+	if gc {
+		out = append(out, c08Step{Op: "gc"})
+	}
+	return out
+}
+
+// c08Exhaustive enumerates every schedule of exactly `depth` enabled steps (or shorter
+// when nothing is enabled) over one small world and emits each as a scenario.
+func c08Exhaustive(c *Ctx, variant int, base c08Scn, depth int, outcomes []string, limit int) int {
+	count := 0
+	var rec func(prefix []c08Step)
+	rec = func(prefix []c08Step) {
+		if count >= limit {
+			return
+		}
+		var spawned []c08Live
+		var enabled []c08Step
+		s := base
+		s.Steps = prefix
+		n := len(prefix)
+		s2, obs, mons := c08Run(s, func(w *c08World, i int) (c08Step, bool) {
+			if i < n {
+				if prefix[i].Op == "spawn" {
+					spawned = append(spawned, c08Live{prefix[i].C, prefix[i].Name})
+				}
+				return prefix[i], true
+			}
+			if n < depth {
+				enabled = c08Enabled(w, spawned, outcomes)
+			}
+			return c08Step{}, false
+		})
+		if n >= depth || len(enabled) == 0 {
+			count++
+			c.Emit(s2, obs, mons, fmt.Sprintf("exh%d/%s", variant, strings.TrimPrefix(c08Class("x", s2, obs), "x/")))
+			return
+		}
+		for _, e := range enabled {
+			rec(append(append([]c08Step{}, prefix...), e))
+		}
+	}
+	rec([]c08Step{})
+	return count
+}
+
 func init() {
 	Register("C08", func(c *Ctx) {
 		for _, raw := range c.Corpus {
@@ -358,6 +509,14 @@ func init() {
 			if err := jsonUnmarshalStrict(raw, &s); err == nil {
 				s2, obs, mons := c08Run(s, nil)
 				c.Emit(s2, obs, mons, "corpus")
+			}
+		}
+		if c.Tier == "thorough" {
+			// exhaustive small scopes: shard j (= seed mod 1000) enumerates world j
+			ws := c08ExhWorlds()
+			j := int(c.Seed % 1000)
+			for v := j; v < len(ws); v += 8 {
+				c08Exhaustive(c, v, ws[v], 6, []string{"ok", "fail", "conflict", "crashBefore", "crashAfter"}, 60000)
 			}
 		}
 		for i := 0; i < c.N; i++ {
